@@ -265,6 +265,13 @@ class SimNet:
                 rec.inbuf.clear()
                 rec.reads.append((0, op.args.get("timeout"), op.args.get("max_bytes")))
                 return ("ok", b"")
+            if fault == "Garbage":
+                # the peer violates the protocol: an HTTP/2 WINDOW_UPDATE with increment 0 on stream 0
+                # (a connection error for h2; not a status line for HTTP/1.1), then nothing more
+                rec.eof = True
+                rec.inbuf.clear()
+                rec.reads.append((13, op.args.get("timeout"), op.args.get("max_bytes")))
+                return ("ok", b"\x00\x00\x04\x08\x00\x00\x00\x00\x00\x00\x00\x00\x00")
             if fault:
                 return ("exc", self.make_exc(fault))
             if not rec.open:
